@@ -310,6 +310,20 @@ impl Pair {
     }
 }
 
+/// wait until `pc` announces a channel opened by its peer; it must carry `label`
+pub async fn announced_channel(pc: &PeerConnection, label: &str, t: Duration) -> Result<Arc<DataChannel>, String> {
+    let r = tokio::time::timeout(scaled(t), async {
+        loop {
+            match pc.recv().await {
+                Some(PeerConnectionEvent::DataChannel(dc)) => return if dc.label == label { Ok(dc) } else { Err(format!("announced channel has label {:?} (stream {}), expected {:?}", dc.label, dc.id, label)) },
+                Some(_) => continue,
+                None => return Err("event stream ended before the peer's channel was announced".to_string()),
+            }
+        }
+    }).await;
+    match r { Ok(x) => x, Err(_) => Err(format!("peer's channel {:?} not announced within {:?}", label, t)) }
+}
+
 /// wait until `dc` reports Open (event) — returns Err on Close / timeout
 pub async fn wait_open(dc: &Arc<DataChannel>, t: Duration) -> Result<(), String> {
     if dc.state.load(Ordering::SeqCst) == rustrtc::DataChannelState::Open as usize { return Ok(()); }
